@@ -158,7 +158,19 @@ fn main() {
     let bound: Option<usize> = opt(&args, "--bound").and_then(|b| if b == "none" { None } else { b.parse().ok() });
     // keep loom's panic output short
     if std::env::var("LOOMMC_VERBOSE").is_err() {
-        std::panic::set_hook(Box::new(|_| {}));
+        // one compact line per panic (loom may abort the process on a panic inside a panic: the
+        // driver then classifies the failure from these lines)
+        std::panic::set_hook(Box::new(|info| {
+            let msg = if let Some(s) = info.payload().downcast_ref::<&str>() {
+                s.to_string()
+            } else if let Some(s) = info.payload().downcast_ref::<String>() {
+                s.clone()
+            } else {
+                "?".into()
+            };
+            let loc = info.location().map(|l| format!("{}:{}", l.file(), l.line())).unwrap_or_default();
+            eprintln!("PANIC: {} at {}", msg.replace('\n', " ").chars().take(200).collect::<String>(), loc);
+        }));
     }
     let result = match sub.as_str() {
         "decoder" => {
@@ -306,8 +318,10 @@ fn main() {
                     .expect("creator");
                     let mut expect: Vec<Vec<u8>> = vec![];
                     for (i, ch) in prog2.chars().enumerate() {
-                        let bytes: Vec<u8> = (0..(5 + i)).map(|k| b'a' + ((i * 3 + k) % 20) as u8).collect();
-                        let hint = if ch == 'c' { jbk::creator::CompHint::Yes } else { jbk::creator::CompHint::No };
+                        // c: content with hint Yes, r: hint No, e: empty content with hint Yes, f: empty with hint No
+                        let len = if ch == 'e' || ch == 'f' { 0 } else { 5 + i };
+                        let bytes: Vec<u8> = (0..len).map(|k| b'a' + ((i * 3 + k) % 20) as u8).collect();
+                        let hint = if ch == 'c' || ch == 'e' { jbk::creator::CompHint::Yes } else { jbk::creator::CompHint::No };
                         let a = c.add_content(Box::new(std::io::Cursor::new(bytes.clone())), hint).expect("add_content");
                         assert_eq!(a.content_id.into_u32() as usize, i, "address returned");
                         expect.push(bytes);
